@@ -1002,3 +1002,36 @@ def monitor_simple1(kind):
 SIMPLE1_RULE = ("v1 simplified discipline in a synctest bubble (monitor only): Handle honours its context (returns `linger` fake ns after it is done) "
                 "or returns when the driver lets it go; endings: graceful finale, Stop, cancel, two overlapping Stop calls, Stop during a pending "
                 "GracefulStop, two overlapping GracefulStop calls; goroutines created by the library are counted after every stop call has returned")
+
+
+# ------------------------------------------------------------------------------------------------ shrinking
+def _chunks_removed(ops, keep_tail=0):
+    """candidate op lists with one chunk removed: halves, quarters, eighths, then single operations"""
+    n = len(ops) - keep_tail
+    out = []
+    size = max(n // 2, 1)
+    while size >= 1:
+        for start in range(0, n, size):
+            cand = ops[:start] + ops[start + size:]
+            if len(cand) < len(ops):
+                out.append(cand)
+        if size == 1:
+            break
+        size //= 2
+    return out
+
+
+def shrink_prio2(sc):
+    m = sc.meta
+    for ops in _chunks_removed(list(m["ops"])):
+        meta = dict(m, ops=ops, nput=sum(1 for o in ops if o[0] in (1, 6)))
+        kind = 0 if m["divider"] == "Fair" else 1
+        yield Scenario(enc_prio2(kind, m["H"], m["cfg"], ops), sc.label, meta, nontrivial=True, version="v2")
+
+
+def shrink_prio1(sc):
+    m = sc.meta
+    for ops in _chunks_removed(list(m["ops"])):
+        meta = dict(m, ops=ops, nput=sum(1 for o in ops if o[0] == 1))
+        kind = 0 if m["divider"] == "Fair" else 1
+        yield Scenario(enc_prio1(kind, m["H"], m["ocap"], m["cfg"], ops), sc.label, meta, nontrivial=True, version="v1")
